@@ -402,10 +402,9 @@ func vfExpected(c *vfSCase, startDb int, start int64, raw [][][]byte) (exp []vfE
 				}
 			}
 		case name == "multi":
-			if !bypass {
-				grp++
-				curGrp = grp
-			}
+			// a source transaction is a group whatever database it starts in
+			grp++
+			curGrp = grp
 		case name == "exec":
 			curGrp = 0
 		default:
